@@ -416,6 +416,15 @@ def build(case):
             elif which == "chain":
                 sel_c, sel_u, fn = "f3(x~P) > g(z~Q) > w", "f3(x) > g(z) > w", ns["f3"]
                 keep = lambda ev: P(ev["x"]) and Q(ev["z"])  # noqa: E731
+            elif which == "nested_only":  # the only condition sits on a nested call
+                sel_c, sel_u, fn = "f3(x) > g(z~Q) > w", "f3(x) > g(z) > w", ns["f3"]
+                keep = lambda ev: Q(ev["z"])  # noqa: E731
+            elif which == "nested_only_eq":
+                sel_c, sel_u, fn = "f3 > g(z=4) > w", "f3 > g(z) > w", ns["f3"]
+                keep = lambda ev: ev["z"] == 4  # noqa: E731
+            elif which == "sibling_only":
+                sel_c, sel_u, fn = "f2(x, g(z~Q)) > y", "f2(x, g(z)) > y", ns["f2"]
+                keep = lambda ev: ("z" not in ev or Q(ev["z"]))  # noqa: E731
             elif which == "chain_eq":
                 sel_c, sel_u, fn = "f3(x=5) > g(z~Q) > w", "f3(x) > g(z) > w", ns["f3"]
                 keep = lambda ev: ev["x"] == 5 and Q(ev["z"])  # noqa: E731
@@ -442,6 +451,38 @@ def build(case):
         N = p["N"]
         which = p["sel"]
 
+        def nested_override(x0, step, n, tp, V):
+            """Override of g's `w` under a condition that sits only on the nested call g(z~P)."""
+            from ptera import probing
+
+            ns = _programs()
+            P = lambda v: v >= tp  # noqa: E731
+            env = dict(ns, P=P)
+            f3 = ns["f3"]
+
+            def twin_f3():
+                acc = 0
+                for i in range(n):
+                    x = x0 + i * step
+                    for z in (x + i, None):
+                        if z is None:
+                            z = acc
+                        w = z + 1
+                        if P(z):
+                            w = V
+                        acc = acc + w
+                return acc
+
+            with probing("f3 > g(z~P) > w", env=env, overridable=True) as ov:
+                ov.override(lambda d: V)
+                rv = f3(x0, step, n)
+            exp = twin_f3()
+            if twin:
+                require(rv != exp or n == 0, "vacuity twin", {"fp": "twin"})
+                return
+            require(rv == exp, "override not applied exactly under the nested call's condition",
+                    {"fp": "C12:x:override:nested:rv"})
+
         def h_override(x0: int, step: int, n: int, tp: int, V: int):
             assume(0 <= n <= N)
             ns = _programs()
@@ -457,6 +498,8 @@ def build(case):
             else:
                 sel = "f1(x=3) > y"
                 cond = lambda x, y: x == 3  # noqa: E731
+            if which == "nested":
+                return nested_override(x0, step, n, tp, V)
 
             # substitution twin, written by hand from the program text
             def twin_f1():
@@ -513,12 +556,13 @@ def cases(tier, seed):
     if th:
         cs.append({"id": "z:symbolic_modulus", "kind": "zsmt",
                    "params": {"kind": "symbolic_modulus", "timeout_ms": 120000}})
-    for which in ("eq", "pred", "focuspred", "sibling", "chain", "chain_eq"):
+    for which in ("eq", "pred", "focuspred", "sibling", "chain", "chain_eq", "nested_only", "nested_only_eq",
+                  "sibling_only"):
         cs.append({"id": f"x:filter:{which}", "params": {"kind": "filter", "sel": which, "N": N},
                    "budget_s": 1500 if th else 240})
     cs.append({"id": "x:filter:pred:twin", "params": {"kind": "filter", "sel": "pred", "N": 2},
                "vacuity_twin": True, "budget_s": 120, "stop_on_refute": True})
-    for which in ("ctx", "focus", "eq"):
+    for which in ("ctx", "focus", "eq", "nested"):
         cs.append({"id": f"x:override:{which}", "params": {"kind": "override", "sel": which, "N": N},
                    "budget_s": 1500 if th else 240})
     cs.append({"id": "x:override:ctx:twin", "params": {"kind": "override", "sel": "ctx", "N": 2},
